@@ -2,6 +2,18 @@ import PQ.Lemmas.IterMutFused
 /-!
 # C09 — supplement (theorems whose lemma files build on `Props/C09.lean` itself)
 -/
+/-!
+## What these theorems do NOT say (known finding F10)
+
+C09's statement — and everything proved in `C09.lean` / here — is about slot identities: no two yielded references refer to the
+same element.  It does not follow that client code may keep several yielded references alive: in the real crate every
+`IterMut::next` / `next_back` re-borrows the whole entry slice uniquely (`get_index_mut2`), which under Rust's aliasing models
+(Miri: Stacked Borrows and Tree Borrows) invalidates every reference yielded before, although they point to different elements
+(`let a = it.next().unwrap(); let b = it.next().unwrap(); *a.1 = 6;` is undefined behaviour under Miri; witness crate
+`/verif/corpus/miri_f10`, replayed by the thorough tier).  The model's `iter_mut` programs (`Op.iterMut`, `iterMutRun`) write only
+through the reference yielded by the same call — the one shape Miri accepts — so they cannot express the bad pattern; the
+restriction is a property of the model's alphabet, not a theorem about the crate.  See DESIGN.md 14.8 and KNOWN_FINDINGS.json.
+-/
 namespace PQ
 
 /-- **once `None`, always `None`** for the `DoublePriorityQueue` `IterMut` (declared `FusedIterator`), in the direct form
